@@ -15,7 +15,7 @@
 
 """Provides processing options for tasks on background threads."""
 
-import logging
+from deep import logging
 import threading
 from concurrent.futures import Future
 from concurrent.futures import ThreadPoolExecutor
